@@ -275,6 +275,7 @@ def variants():
     sm = "tempest/state_manager.py"
     core = "tempest/core.py"
     return [
+        Variant("c-validate-while-appending", "bad", insert_after(sm, "StateManager.commit_current_to_history", "value = self._current[current_key]", "if strict and value is None:\n    raise ValueError('missing')"), ["C17.c"], quick=True),
         Variant("a-get-current-no-copy", "bad", replace_expr(sm, "StateManager.get_current", "self._ensure_copy(value)", "value"), ["C17.a"], quick=True),
         Variant("a-get-history-index-no-copy", "bad", replace_expr(sm, "StateManager.get_history", "self._ensure_copy(self._history[key][index])", "self._history[key][index]"), ["C17.a"]),
         Variant("a-get-history-asarray", "bad", replace_expr(sm, "StateManager.get_history", "np.array(self._history[key])", "self._history[key]"), ["C17.a"], quick=True),
